@@ -832,8 +832,9 @@ func runHistCase(c HistCase, x *h.Ctx) {
 				if x.Fail(sig, "%s(%s): proposer k%d before, k%d after reload of %s", where, o.Enc, keyOf(beforeProp), keyOf(after), dumpSet(out)) {
 					return
 				}
+				// open finding: the reloaded set goes on with the recomputed proposer until the next increment
+				model[si].prop = -1
 			}
-			model[si].prop = -1 // from here on the model does not define the proposer until the next increment
 			model[si].inherited = false
 			nRT++
 		default:
